@@ -51,6 +51,7 @@ for f in glob.glob('/tmp/sens_seeds*.txt')+glob.glob('/tmp/sens_r2_*.txt'):
         if m: caught[m.group(1)+('2' if '_r2_' in f else '')]=(m.group(2),m.group(3).split())
 for d in sorted(glob.glob('/tmp/seeded/C*/[AB]'))+sorted(glob.glob('/tmp/seeded2/C*/[ABC]')):
     pid=d.split('/')[-2]; x=d.split('/')[-1]; name=f'{pid}-{x}'+('2' if 'seeded2' in d else '')
+    if not all(os.path.exists(f'{d}/{fn}') for fn in ['patch.diff','demo.rs','notes.md']) or name not in caught: continue
     out=f'/verif/seeded/{name}'
     os.makedirs(out,exist_ok=True)
     for fn in ['patch.diff','demo.rs','notes.md']:
